@@ -11,6 +11,8 @@ import (
 	"fmt"
 	"sort"
 	"strings"
+	"sync"
+	"sync/atomic"
 	"time"
 
 	"github.com/refraction-networking/conjure/pkg/zzverif/vbfs"
@@ -380,7 +382,69 @@ func VerifC18Main() {
 		c18BFS(a, strings.TrimPrefix(name, "bfs:"))
 	case strings.HasPrefix(name, "conc:"):
 		c18Conc(a, name)
+	case strings.HasPrefix(name, "race:"):
+		c18Race(a, name)
 	default:
 		vh.Fatal("unknown scenario %q", name)
 	}
+}
+
+// c18Race: free-running companion for the race detector (nothing rewritten, real clock, millisecond
+// lifetimes so that entries expire while other goroutines query): 4 query goroutines over 3 addresses
+// with live / non-live verdicts and a clean-up goroutine, on the cache configuration named after "race:".
+func c18Race(a *vh.Args, name string) {
+	caps := map[string][2]int{"map": {0, 0}, "lru1": {1, 1}, "lru2": {2, 2}, "lru-live2-non1": {2, 1}}
+	cp, ok := caps[strings.TrimPrefix(name, "race:")]
+	if !ok {
+		vh.Fatal("unknown race configuration %q", name)
+	}
+	t0 := time.Now()
+	var n int64
+	for time.Since(t0) < a.Budget/4 {
+		tt, err := New(&Config{CacheDuration: "3ms", CacheDurationNonLive: "1ms", CacheCapacity: cp[0], CacheCapacityNonLive: cp[1]})
+		if err != nil {
+			vh.Fatal("%v", err)
+		}
+		t := tt.(*CachedLivenessTester)
+		var flip int64
+		t.phantomIsLive = func(address string) (bool, error) {
+			switch address[0] {
+			case 'a':
+				return true, ErrLiveHost
+			case 'b':
+				return false, NotLive
+			}
+			if atomic.AddInt64(&flip, 1)%2 == 0 {
+				return true, ErrLiveHost
+			}
+			return false, NotLive
+		}
+		var wg sync.WaitGroup
+		for g := 0; g < 4; g++ {
+			g := g
+			wg.Add(1)
+			go func() {
+				defer wg.Done()
+				for i := 0; i < 40; i++ {
+					addr := string(rune('a'+(i+g)%3)) + ".example"
+					t.PhantomIsLive(addr, 443)
+					atomic.AddInt64(&n, 1)
+					if i%8 == 7 {
+						time.Sleep(time.Millisecond)
+					}
+				}
+			}()
+		}
+		wg.Add(1)
+		go func() {
+			defer wg.Done()
+			for i := 0; i < 6; i++ {
+				t.ClearExpiredCache()
+				time.Sleep(500 * time.Microsecond)
+			}
+		}()
+		wg.Wait()
+	}
+	vh.Emit(&vh.Out{Name: name, Evaluations: n, Traces: n, Exhaustive: false, Cap: "free-running sample of schedules under the race detector (adjunct)", WallS: time.Since(t0).Seconds(),
+		Samples: []any{map[string]any{"iteration": "4 goroutines x 40 queries over 3 addresses + ClearExpiredCache x6, lifetimes 3ms/1ms"}}})
 }
